@@ -46,7 +46,7 @@ Definition all_ofty : list (option fty) := None :: map Some all_fty.
 Definition all_shape : list shape :=
   map Plain all_fty
   ++ map (fun x => match x with (i, e, r) => Array i e r end) (list_prod (list_prod all_ofty obools) bools)
-  ++ map Map all_ofty.
+  ++ map (fun x => Map (fst x) (snd x)) (list_prod all_ofty bools).
 Definition all_props : list prop :=
   map (fun x => match x with (n, s, r, o) => mkProp n s r o end)
       (list_prod (list_prod (list_prod bools all_shape) bools) bools).
@@ -106,11 +106,12 @@ Lemma ofty_complete t : In t all_ofty.
 Proof. destruct t as [t|]; [right; apply in_map; apply fty_complete|left; reflexivity]. Qed.
 Lemma shape_complete s : In s all_shape.
 Proof.
-  unfold all_shape. destruct s as [t|i e r|i].
+  unfold all_shape. destruct s as [t|i e r|i r].
   - apply in_or_app; left. apply in_map. apply fty_complete.
   - apply in_or_app; right. apply in_or_app; left. apply in_map_iff. exists (i, e, r). split; [reflexivity|].
     repeat apply in_prod; auto using ofty_complete, obools_complete, bools_complete.
-  - apply in_or_app; right. apply in_or_app; right. apply in_map. apply ofty_complete.
+  - apply in_or_app; right. apply in_or_app; right. apply in_map_iff. exists (i, r). split; [reflexivity|].
+    apply in_prod; auto using ofty_complete, bools_complete.
 Qed.
 Lemma all_props_complete p : In p all_props.
 Proof.
@@ -127,9 +128,21 @@ Definition gen_key (r : string * string * string * string * string * string * li
   match r with (_, fn, arm, x, vt, dst, _, _) => (fn, arm, x, vt, dst) end.
 Definition site_key (s : site) := (s_func s, s_arm s, ext_var (s_ext s), s_vtype s, s_dest s).
 
-(* every proto.SetExtension call of j5convert is a site of the model, with the same static types,
-   in the same order; an added / removed / retyped call breaks this lemma *)
-Lemma sites_agree : map site_key model_sites = map gen_key SetExtGen.sites.
+(* every proto.SetExtension call of j5convert is a site of the model with the same static types, and
+   every site of the model exists in the code: equality of the two tables as SETS of keys (function,
+   type-switch arm, extension, value type, destination type).  Reordering functions or moving a call
+   inside its arm does not matter; a call in a new place, a removed call or a retyped call does. *)
+Definition key5 := (string * string * string * string * string)%type.
+Definition key5_eqb (a b : key5) : bool :=
+  match a, b with
+  | (a1, a2, a3, a4, a5), (b1, b2, b3, b4, b5) =>
+      String.eqb a1 b1 && String.eqb a2 b2 && String.eqb a3 b3 && String.eqb a4 b4 && String.eqb a5 b5
+  end.
+Definition keys_subset (a b : list key5) : bool := forallb (fun k => existsb (key5_eqb k) b) a.
+Definition sites_same_set : bool :=
+  keys_subset (map site_key model_sites) (map gen_key SetExtGen.sites)
+  && keys_subset (map gen_key SetExtGen.sites) (map site_key model_sites).
+Lemma sites_agree : sites_same_set = true.
 Proof. vm_compute. reflexivity. Qed.
 
 (* every extension the model knows exists in the generated table *)
@@ -170,9 +183,6 @@ Definition gen_ext (v : string) := find (fun r => match r with (v', _, _, _, _, 
 Definition import_by_context (fn x : string) : bool :=
   (* a value is added by visitEnumNode, which ensures the import when any option has info *)
   (String.eqb fn "enumBuilder.addValue" && String.eqb x "ext_j5pb.E_EnumValue")
-  (* a service file always holds the methods' request objects; visitObjectNode ensures j5ExtImport *)
-  || (String.eqb fn "conversionVisitor.visitServiceNode" && String.eqb x "ext_j5pb.E_Service")
-  || (String.eqb fn "conversionVisitor.visitServiceMethodNode" && String.eqb x "ext_j5pb.E_Method")
   (* a field lives in an object/oneof; visitObjectNode / visitOneofNode ensure j5ExtImport *)
   || (String.eqb fn "buildField" && String.eqb x "ext_j5pb.E_Field").
 Definition gen_site_typed (r : string * string * string * string * string * string * list string * bool) : bool :=
@@ -231,7 +241,7 @@ Definition field_cover (p : prop) : bool :=
   end.
 Definition has_any (p : prop) : bool :=
   match p_shape p with
-  | Plain (TAny _) | Array (Some (TAny _)) _ _ | Map (Some (TAny _)) => true
+  | Plain (TAny _) | Array (Some (TAny _)) _ _ | Map (Some (TAny _)) _ => true
   | _ => false
   end.
 Definition accepted_language (p : prop) : bool :=
